@@ -21,6 +21,14 @@ Definition corr_validate (c : list file_result * list file_result) : bool :=
   | Panic => false
   end.
 
+(* C01: validation of the parse-stage results returns normally in the model, with one result per id, as the implementation did *)
+Definition corr_C01_ids (c : list file_result * list file_result) : bool :=
+  let '(p, v) := c in
+  match validate p with
+  | Ok r => list_eqb str_eqb (map fr_id r) (map fr_id v) && list_eqb str_eqb (map fr_id p) (map fr_id v)
+  | Panic => false
+  end.
+
 (* ------------------------------------------------------------------ shared helpers *)
 Fixpoint remove_first {X} (eqb : X -> X -> bool) (x : X) (l : list X) : option (list X) :=
   match l with
@@ -78,10 +86,24 @@ Definition corr_C09 (c : list file_result * list file_result) : bool :=
 (* ------------------------------------------------------------------ C05-C08, C10: label-based projections *)
 Definition labelled (labels : list string) (d : diag) : bool := existsb (fun l => ctx_is l d) labels.
 
+(* the tree without its method-level oneway flags (those belong to C10, not to the classification of references) *)
+Definition erase_oneway (a : aidl) : aidl :=
+  match ai_item a with
+  | ItInterface i =>
+      Aidl (ai_package a) (ai_imports a) (ai_declared a)
+        (ItInterface (Interface (i_oneway i) (i_name i)
+           (map (fun e => match e with
+                          | IEMethod m => IEMethod (Method false (m_name m) (m_ret m) (m_args m) (m_annots m) (m_code m) (m_doc m)
+                                                           (m_sym m) (m_full m) (m_code_range m) (m_oneway_range m))
+                          | other => other end) (i_elems i))
+           (i_annots i) (i_doc i) (i_full i) (i_sym i)))
+  | _ => a
+  end.
+
 Definition corr_by (sel : aidl -> diag -> bool) (tree : bool) (c : list file_result * list file_result) : bool :=
   for_files (fun a a' ds0 ds =>
     match model_file (fst c) a ds0 with
-    | Some (am, dm) => list_eqb diag_eqb (filter (sel a') dm) (filter (sel a') ds) && (negb tree || aidl_eqb am a')
+    | Some (am, dm) => list_eqb diag_eqb (filter (sel a') dm) (filter (sel a') ds) && (negb tree || aidl_eqb (erase_oneway am) (erase_oneway a'))
     | None => false
     end) c.
 
@@ -96,8 +118,8 @@ Definition corr_C05 := corr_by is_c05 true.
 Definition spec_C05 (c : list file_result * list file_result) : bool :=
   let defined := collect_item_keys (fst c) in
   for_files (fun a a' ds0 ds =>
-    (* the returned tree is the parse-stage tree re-kinded by the scoping rules (and oneway propagated) *)
-    aidl_eqb a' (sp_tree defined a) &&
+    (* the returned tree is the parse-stage tree re-kinded by the scoping rules (method oneway flags aside: C10) *)
+    aidl_eqb (erase_oneway a') (erase_oneway (sp_tree defined a)) &&
     multiset_eqb diag_eqb (filter (is_c05 a') ds) (sp_unknown defined a)) c.
 
 (* C06 *)
@@ -133,11 +155,16 @@ Definition spec_C08 := spec_by is_c08 (fun defined a a' => flat_map spec_contain
 
 (* C10 *)
 Definition is_c10 (a : aidl) := labelled ["redundant oneway"; "must be void"]%string.
-Definition corr_C10 := corr_by is_c10 true.
-Definition spec_C10 (c : list file_result * list file_result) : bool :=
-  let defined := collect_item_keys (fst c) in
+Definition oneway_flags (a : aidl) : list bool := map m_oneway (methods_of (ai_item a)).
+Definition corr_C10 (c : list file_result * list file_result) : bool :=
   for_files (fun a a' ds0 ds =>
-    aidl_eqb a' (sp_tree defined a) &&
+    match model_file (fst c) a ds0 with
+    | Some (am, dm) => list_eqb diag_eqb (filter (is_c10 a') dm) (filter (is_c10 a') ds) &&
+                       list_eqb Bool.eqb (oneway_flags am) (oneway_flags a')
+    | None => false
+    end) c.
+Definition spec_C10 (c : list file_result * list file_result) : bool :=
+  for_files (fun a a' ds0 ds =>
     (* flags: interface flag or the method's own; everything else about the item as resolved *)
     list_eqb Bool.eqb (map m_oneway (methods_of (ai_item a')))
              (match ai_item a with
@@ -380,8 +407,18 @@ Definition fr_eqb_msg (a b : file_result) : bool :=
   list_eqb diag_eqb_msg (fr_diags a) (fr_diags b).
 (* lexer + LR driver + actions + javadoc + diagnostics of the model = what the library stored, messages included *)
 Definition corr_parse (c : pcase) : bool :=
+  (* the well-formedness hypothesis of the safety theorems: one (line, column) entry per character and one for the end *)
+  Nat.eqb (length (pc_lc c)) (S (length (pc_src c))) &&
   match add_content (Ctx (pc_src c) (pc_lc c)) (fr_id (pc_fr c)) with
   | Added fr => fr_eqb_msg fr (pc_fr c)
+  | _ => false
+  end.
+
+(* the same without the wording of the messages (which only C20 is about): tree, every range, kind, label, related ranges *)
+Definition corr_parse_shape (c : pcase) : bool :=
+  Nat.eqb (length (pc_lc c)) (S (length (pc_src c))) &&
+  match add_content (Ctx (pc_src c) (pc_lc c)) (fr_id (pc_fr c)) with
+  | Added fr => fr_eqb fr (pc_fr c)
   | _ => false
   end.
 
@@ -419,6 +456,7 @@ Definition checks : list (string * (sx -> N)) :=
     ("corr_C06"%string, run_bool d_vcase corr_C06); ("spec_C06"%string, run_bool d_vcase spec_C06);
     ("corr_C07"%string, run_bool d_vcase corr_C07); ("spec_C07"%string, run_bool d_vcase spec_C07);
     ("corr_C08"%string, run_bool d_vcase corr_C08); ("spec_C08"%string, run_bool d_vcase spec_C08);
+    ("corr_C01_ids"%string, run_bool d_vcase corr_C01_ids);
     ("corr_C10"%string, run_bool d_vcase corr_C10); ("spec_C10"%string, run_bool d_vcase spec_C10);
     ("corr_C15"%string, run_bool d_tcase corr_C15); ("spec_C15"%string, run_bool d_tcase spec_C15);
     ("corr_C16"%string, run_bool d_lcase corr_C16); ("spec_C16"%string, run_bool d_lcase spec_C16);
@@ -426,7 +464,7 @@ Definition checks : list (string * (sx -> N)) :=
     ("spec_C11_sorted"%string, run_bool d_vcase spec_C11_sorted);
     ("corr_C12"%string, run_bool d_hcase corr_C12);
     ("spec_C20"%string, spec_C20); ("corr_C20"%string, run_bool d_pcase corr_C20);
-    ("corr_parse"%string, run_bool d_pcase corr_parse);
+    ("corr_parse"%string, run_bool d_pcase corr_parse); ("corr_parse_shape"%string, run_bool d_pcase corr_parse_shape);
     ("spec_C03_kept"%string, run_bool d_vcase spec_C03_kept); ("spec_C04_validation"%string, run_bool d_vcase spec_C04_validation);
     ("corr_C19"%string, run_bool (fun s => match s with L [x] => d_list d_aidl x | _ => None end) corr_C19) ].
 
